@@ -10,10 +10,16 @@
    One action per critical section of connection.go:
      Send(k,c,n)      Channel.sendBytes / trySendBytes   (queue insert or refusal)
      SendPacket(k,c)  MConnection.sendPacketMsg          (pull loop + nextPacketMsg + write)
-     SendPing(k)      sendRoutine, pingTimer case
+     SendPing(k)      remote sendRoutine, pingTimer case: writes a ping, arms its pong timer
      Inject(k,p)      the adversary writes packet p
-     Recv(k)          recvRoutine, one iteration (ReadMsg, switch, recvPacketMsg, onReceive)
-     SendPong(k)      sendRoutine, c.pong case (reply travels on the reverse direction)     *)
+     Recv(k)          our recvRoutine, one iteration (ReadMsg, switch, recvPacketMsg, onReceive)
+     SendPong(k)      our sendRoutine, c.pong case (the pong travels on the reverse direction)
+     RecvPong(k)      remote recvRoutine reads the pong, remote sendRoutine disarms the timer
+     PongTimeout(k)   remote sendRoutine, pongTimeoutCh case with timeout = true: "pong timeout",
+                      the remote end stops the connection (an environment event: our end was slow)
+     NoticeClose(k)   an end whose peer has stopped sees the closed stream and stops too
+   The remote end of an honest connection is represented by its sender state (s), its running
+   flag (aup) and its pong timer (awaiting); `back` counts pongs in flight towards it.        *)
 EXTENDS TMMConn
 
 CONSTANTS
@@ -37,6 +43,8 @@ NewConn == [s    |-> NewSender(Cfg),
             wire |-> << >>,                                  \* packets written, not yet read
             acc  |-> [c \in CS(Cfg) |-> << >>],             \* ghost: messages accepted by Send
             dlv  |-> [c \in CS(Cfg) |-> << >>],             \* ghost: messages handed to onReceive
+            aup  |-> TRUE,                                   \* remote end running (Send answers false when not)
+            awaiting |-> FALSE, back |-> 0, timedout |-> FALSE,
             inj  |-> 0, pings |-> 0, pongs |-> 0]
 
 Init == /\ conn = [k \in Conns |-> NewConn]
@@ -48,7 +56,7 @@ Send(k, c, len) ==
   /\ Alive /\ k \in Honest
   /\ Len(conn[k].acc[c]) < MaxMsgs
   /\ LET m == Msg(c, Len(conn[k].acc[c]) + 1, len)
-         e == Enqueue(Cfg, conn[k].s, conn[k].r.up, c, m)
+         e == Enqueue(Cfg, conn[k].s, conn[k].aup, c, m)
      IN /\ conn' = [conn EXCEPT ![k].s = e.s,
                                 ![k].acc[c] = IF e.ok THEN Append(@, m) ELSE @]
         /\ act' = [name |-> "Send", k |-> k, ch |-> c, len |-> len, ok |-> e.ok]
@@ -62,9 +70,9 @@ SendPacket(k, c) ==
         /\ act' = [name |-> "SendPacket", k |-> k, ch |-> c, len |-> Len(e.pkt.data), ok |-> e.pkt.eof]
 
 SendPing(k) ==
-  /\ Alive /\ k \in Honest /\ conn[k].pings < MaxPings
+  /\ Alive /\ k \in Honest /\ conn[k].pings < MaxPings /\ conn[k].aup
   /\ conn' = [conn EXCEPT ![k].wire = Append(@, [t |-> "ping", ch |-> 0, eof |-> FALSE, data |-> << >>]),
-                          ![k].pings = @ + 1]
+                          ![k].pings = @ + 1, ![k].awaiting = TRUE]
   /\ act' = [name |-> "SendPing", k |-> k, ch |-> 0, len |-> 0, ok |-> TRUE]
 
 Inject(k, p) ==
@@ -82,8 +90,28 @@ Recv(k) ==
 
 SendPong(k) ==
   /\ Alive /\ conn[k].r.pong /\ conn[k].r.up
-  /\ conn' = [conn EXCEPT ![k].r.pong = FALSE, ![k].pongs = @ + 1]
+  /\ conn' = [conn EXCEPT ![k].r.pong = FALSE, ![k].pongs = @ + 1, ![k].back = @ + 1]
   /\ act' = [name |-> "SendPong", k |-> k, ch |-> 0, len |-> 0, ok |-> TRUE]
+
+RecvPong(k) ==
+  /\ Alive /\ k \in Honest /\ conn[k].back > 0 /\ conn[k].aup
+  /\ conn' = [conn EXCEPT ![k].back = @ - 1, ![k].awaiting = FALSE]
+  /\ act' = [name |-> "RecvPong", k |-> k, ch |-> 0, len |-> 0, ok |-> TRUE]
+
+PongTimeout(k) ==
+  /\ Alive /\ k \in Honest /\ conn[k].awaiting /\ conn[k].aup
+  /\ conn' = [conn EXCEPT ![k].aup = FALSE, ![k].awaiting = FALSE, ![k].timedout = TRUE]
+  /\ act' = [name |-> "PongTimeout", k |-> k, ch |-> 0, len |-> 0, ok |-> FALSE]
+
+\* the stream is closed by the end that stopped; the other end's recvRoutine gets a read error.
+\* Our end drops whatever is still unread (conn.Close).
+NoticeClose(k) ==
+  /\ Alive /\ k \in Honest
+  /\ \/ /\ ~conn[k].r.up /\ conn[k].aup
+        /\ conn' = [conn EXCEPT ![k].aup = FALSE, ![k].awaiting = FALSE]
+     \/ /\ ~conn[k].aup /\ conn[k].r.up /\ conn[k].wire = << >>
+        /\ conn' = [conn EXCEPT ![k].r = StopWith(@, "read")]
+  /\ act' = [name |-> "NoticeClose", k |-> k, ch |-> 0, len |-> 0, ok |-> FALSE]
 
 Next ==
   \/ \E k \in Honest, c \in CS(Cfg), n \in Sizes : Send(k, c, n)
@@ -91,6 +119,7 @@ Next ==
   \/ \E k \in Honest : SendPing(k)
   \/ \E k \in Hostile : \E p \in HostilePackets(Cfg) : Inject(k, p)
   \/ \E k \in Conns : Recv(k) \/ SendPong(k)
+  \/ \E k \in Honest : RecvPong(k) \/ PongTimeout(k) \/ NoticeClose(k)
 
 Spec == Init /\ [][Next]_vars
 
@@ -100,7 +129,7 @@ Spec == Init /\ [][Next]_vars
 \* accepted, and everything was handed over once the connection has drained.
 ExactlyOnceInOrder == \A k \in Honest : PrefixDelivered(Cfg, conn[k].dlv, conn[k].acc)
 Drained(k) == conn[k].wire = << >> /\ SenderIdle(Cfg, conn[k].s)
-DrainedComplete == \A k \in Honest : (Drained(k) /\ conn[k].r.up) => conn[k].dlv = conn[k].acc
+DrainedComplete == \A k \in Honest : (Drained(k) /\ conn[k].r.up /\ conn[k].aup) => conn[k].dlv = conn[k].acc
 \* a pending message can always be pushed out: no accepted message is stuck on the sender
 NoStuckMessage == \A k \in Honest : \A c \in CS(Cfg) :
                      (conn[k].s.q[c] # << >> \/ conn[k].s.qsize[c] > 0) => c \in Pull(Cfg, conn[k].s).pend
@@ -109,7 +138,7 @@ QueueSize == \A k \in Honest : QueueSizeExact(Cfg, conn[k].s)
 \* hostile input only drops that peer
 NeverCrashes == Alive
 HonestStaysUp == \A k \in Honest :
-                    conn[k].r.up \/ (\E c \in CS(Cfg) : \E i \in DOMAIN conn[k].acc[c] : Len(conn[k].acc[c][i]) > Cfg.rcap[c])
+                    conn[k].r.up \/ conn[k].timedout \/ (\E c \in CS(Cfg) : \E i \in DOMAIN conn[k].acc[c] : Len(conn[k].acc[c][i]) > Cfg.rcap[c])
 OnErrorOnce == \A k \in Conns : conn[k].r.nerr <= 1 /\ (conn[k].r.up => conn[k].r.err = "none")
 HostileOnlyDrops == NeverCrashes /\ HonestStaysUp /\ OnErrorOnce
 \* nothing is read, buffered or delivered on a connection that is down
